@@ -199,7 +199,18 @@ def excel_case(kind, elements, nr, nrho, declared=None):
       tab = Excel_EAMTabulation(pairpots, eampots, cutoff, nr, cutoff_rho, nrho)
     else:
       tab = Excel_FinnisSinclair_EAMTabulation(pairpots, eampots, cutoff, nr, cutoff_rho, nrho)
-    return xl.read_workbook(tab.workbook)
+    first = xl.read_workbook(tab.workbook)
+    # the files actually written: twice from the same object, read back with openpyxl
+    import openpyxl
+    files = []
+    for _i in range(2):
+      buf = io.BytesIO()
+      tab.write(buf)
+      buf.seek(0)
+      files.append(xl.read_workbook(openpyxl.load_workbook(buf)))
+    core.cur().__dict__["excel_files"] = files
+    first["#files"] = files
+    return first
 
   c, cr = z3.Real("cutoff"), z3.Real("cutoff_rho")
 
@@ -222,8 +233,17 @@ def excel_case(kind, elements, nr, nrho, declared=None):
   def build(path, wrong=False):
     if path.exc is not None:
       raise Structural("exception", "%s: %s" % (type(path.exc).__name__, path.exc))
-    got = path.value
+    got = dict(path.value)
+    files = got.pop("#files", [])
     exp = expected_sheets(wrong)
+    for i, f in enumerate(files):
+      # every written file holds the sheets, labels and numbers of the workbook object (numbers are the proxies' tags)
+      if sorted(f) != sorted(got):
+        raise Structural("file-sheets", "file written %s holds the sheets %r, the workbook %r" % (["first", "second"][i], sorted(f), sorted(got)))
+      for name in got:
+        a, b = f[name], got[name]
+        if a["first"] != b["first"] or sorted(a["columns"]) != sorted(b["columns"]) or len(a["x"]) != len(b["x"]):
+          raise Structural("file-layout", "sheet %s of the file written %s differs in layout from the workbook" % (name, ["first", "second"][i]))
     if sorted(got) != sorted(exp):
       raise Structural("sheets", "sheets %r, expected %r" % (sorted(got), sorted(exp)))
     vcs = []
@@ -286,6 +306,23 @@ def replay_excel(kind, model, nr, nrho, w):
         for label, fname in cols.items():
           if abs(sh["columns"][label][k] - funcs[fname](x)) > 1e-12 * max(1.0, abs(funcs[fname](x))):
             bad.append("sheet %s %s row %d = %r expected %r" % (name, label, k, sh["columns"][label][k], funcs[fname](x)))
+    # the files actually written (twice from the same object)
+    import openpyxl
+    for i in range(2):
+      buf = io.BytesIO()
+      tab.write(buf)
+      buf.seek(0)
+      f = xl.read_workbook(openpyxl.load_workbook(buf))
+      if sorted(f) != sorted(exp):
+        bad.append("the file written %s from the same tabulation object holds the sheets %r, expected %r" % (["first", "second"][i], sorted(f), sorted(exp)))
+        continue
+      for name, (n, step, cols) in exp.items():
+        if len(f[name]["x"]) != n or sorted(f[name]["columns"]) != sorted(cols):
+          bad.append("sheet %s of the file written %s: %d rows, columns %r" % (name, ["first", "second"][i], len(f[name]["x"]), sorted(f[name]["columns"])))
+        else:
+          for label in cols:
+            if any(abs(a - b) > 1e-12 * max(1.0, abs(b)) for a, b in zip(f[name]["columns"][label], got[name]["columns"][label])):
+              bad.append("sheet %s column %s of the file written %s differs from the workbook" % (name, label, ["first", "second"][i]))
   except Exception as e:
     bad.append("%s: %s" % (type(e).__name__, e))
   return (bool(bad), "; ".join(bad[:3]) or "workbook agrees", dict(kind="excel_" + kind, model=model.describe(), nr=nr, nrho=nrho, mismatches=bad[:10]))
